@@ -64,6 +64,12 @@ func (f *Lte) Call(s *slip.Scope, args slip.List, depth int) slip.Object {
 	}
 	pos++
 	for ; pos < len(args); pos++ {
+		if c, ok := compareByValue(target, args[pos]); ok {
+			if 0 < c {
+				return nil
+			}
+			continue
+		}
 		arg, target = slip.NormalizeNumber(args[pos], target)
 		switch ta := arg.(type) {
 		case slip.Fixnum:
